@@ -13,6 +13,11 @@ from .values import (SEQ, NONE, V, VBool, VBuiltin, VClassRef, VDict, VEnum, VEx
 HEX = "0123456789abcdef"
 
 
+def v_has_no_format(v: Any) -> bool:
+    classes = [v.cls] if isinstance(v, ConcObj) else list(v.static)
+    return all(c.find_method("__format__") is None and not c.is_str_subclass() for c in classes)
+
+
 class Frame:
     def __init__(self, module: Module, func: Optional[FuncInfo] = None, env: Optional[Dict[str, V]] = None,
                  parent: Optional["Frame"] = None, extra_modules: Optional[List[Module]] = None):
@@ -226,6 +231,15 @@ class Exprs:
         if isinstance(a, VStr) and isinstance(b, VStr):
             if a.py is not None and b.py is not None:
                 return z3.BoolVal(a.py == b.py and a.is_bytes == b.is_bytes)
+            ua, ub = a.units(), b.units()
+            if ua is not None and ub is not None:
+                if len(ua) != len(ub):
+                    return z3.BoolVal(False)
+                cs = [x == y for x, y in zip(ua, ub) if not (isinstance(x, int) and isinstance(y, int) and x == y)]
+                if any(c is False for c in cs):
+                    return z3.BoolVal(False)
+                cs = [c for c in cs if c is not True]
+                return z3.And(*cs) if cs else z3.BoolVal(True)
             ca, cb = self.char_code(a), self.char_code(b)
             if ca is not None and cb is not None:
                 return ca == cb
@@ -419,6 +433,8 @@ class Exprs:
         raise Unsupported(f"binding {kind}")
 
     def external_value(self, dotted: str) -> V:
+        if dotted == "math.inf":
+            return VFloat(py=float("inf"))
         if dotted in self.EXTERNAL_CALLABLES or dotted.split(".")[-1] in ("Optional",):
             return VBuiltin(dotted)
         return VModuleRef(dotted)
@@ -539,6 +555,11 @@ class Exprs:
             return self.format_int(v.t, spec, node, fr)
         if isinstance(v, VPrimUnion):
             return self.opaque_str("fmtunion")
+        if spec and isinstance(v, (ConcObj, SymObj)) and v_has_no_format(v):
+            # e.g. f"{obj:08x}": object.__format__ raises TypeError for a non-empty format spec
+            self.ob(z3.BoolVal(False), "format-type", node, fr,
+                    f"format spec {spec!r} applied to an object without __format__")
+            raise PathEnd("TypeError in format")
         if isinstance(v, VEnum) and not spec:
             return self.opaque_str("fmtenum")
         if isinstance(v, VExc):
@@ -816,6 +837,20 @@ class Exprs:
         # ordering
         a = self.unwrap(a, node, fr, "left operand")
         b = self.unwrap(b, node, fr, "right operand")
+        if isinstance(a, VTuple) and isinstance(b, VTuple) and len(a.items) == len(b.items):
+            # lexicographic order
+            strict = isinstance(op, (ast.Lt, ast.Gt))
+            res: Any = z3.BoolVal(not strict)
+            for x, y in reversed(list(zip(a.items, b.items))):
+                lt = self.compare(ast.Lt() if isinstance(op, (ast.Lt, ast.LtE)) else ast.Gt(), x, y, node, fr)
+                res = z3.Or(lt, z3.And(self.num_eq(x, y), res))
+            return res
+        inf = float("inf")
+        if isinstance(a, VFloat) and a.py == inf and isinstance(b, (VInt, VFloat)):
+            both = isinstance(b, VFloat) and b.py == inf
+            return z3.BoolVal({ast.Lt: False, ast.LtE: both, ast.Gt: not both, ast.GtE: True}[type(op)])
+        if isinstance(b, VFloat) and b.py == inf and isinstance(a, VInt):
+            return z3.BoolVal({ast.Lt: True, ast.LtE: True, ast.Gt: False, ast.GtE: False}[type(op)])
         if isinstance(a, VStr) and isinstance(b, VStr):
             ca, cb = self.char_code(a), self.char_code(b)
             if ca is None or cb is None:
@@ -838,6 +873,15 @@ class Exprs:
         if isinstance(op, ast.GtE):
             return x >= y
         raise Unsupported("comparison operator")
+
+    def num_eq(self, x: V, y: V) -> Any:
+        if isinstance(x, VFloat) or isinstance(y, VFloat):
+            if isinstance(x, VFloat) and isinstance(y, VFloat) and x.py is not None and y.py is not None:
+                return z3.BoolVal(x.py == y.py)
+            if (isinstance(x, VFloat) and x.py == float("inf")) or (isinstance(y, VFloat) and y.py == float("inf")):
+                return z3.BoolVal(False)
+            return z3.Bool(self.path.fresh_name("$floateq"))
+        return self.eq(x, y)
 
     def contains(self, container: V, item: V, node: Any, fr: Frame) -> Any:
         if isinstance(container, VOpt):
@@ -957,6 +1001,8 @@ class Exprs:
         ic = z3.simplify(i)
         if base.is_concrete() and z3.is_int_value(ic):
             return base.tail[ic.as_long()]
+        if base.is_concrete() and len(base.tail) == 1:
+            return base.tail[0]  # the index obligation above leaves only 0 / -1
         j = z3.simplify(z3.If(i < 0, i + ln, i))
         self.register_index(i)
         if base.is_concrete():
@@ -1009,6 +1055,21 @@ class Exprs:
                     r = base.py[(loc.as_long() if loc is not None else None):(hic.as_long() if hic is not None else None)]
                     return VStr(r, is_bytes=base.is_bytes)
             ln = z3.Length(base.t)
+            if lo is not None and hi is not None:
+                kk = z3.simplify(hi - lo)
+                if z3.is_int_value(kk) and 0 < kk.as_long() <= 16:
+                    # a short slice of fixed length: when it lies inside the string (decided here, by
+                    # forking if necessary) it is the rope of its characters -- no sequence reasoning needed
+                    k = kk.as_long()
+                    inside = z3.And(lo >= 0, lo + k <= ln)
+                    if self.path.branch(inside):
+                        parts = []
+                        for i in range(k):
+                            el = base.t[z3.simplify(lo + i)]
+                            if not base.is_bytes:
+                                self.path.add_fact(z3.And(el >= 0, el <= 0x10FFFF))
+                            parts.append(z3.Unit(el))
+                        return VStr(parts, is_bytes=base.is_bytes, is_char=(k == 1))
 
             def norm(x: Any) -> Any:
                 x = z3.If(x < 0, x + ln, x)
